@@ -379,6 +379,56 @@ pub fn par_strings(ctx: &Ctx, space: &str, alpha: &[&[u8]], maxlen: u32, f: impl
     r
 }
 
+/// State key for S1 searches from a `Debug` rendering: drops the FIRST field when it is
+/// a struct/collection (`name: Type { .. }` or `name: [..]`) — by convention the immutable
+/// payload (encoded sequence, line starts) that is identical for every state of one search —
+/// and keeps *everything after it*, whatever the fields are called. No layout assertion is
+/// made: if the rendering does not look like `T { first: X {..}, rest.. }` the whole string is
+/// the key (over-fine keys only cost time; coarse ones hide bugs).
+pub fn debug_key_without_first_field(d: &str) -> String {
+    let Some(open_outer) = d.find('{') else { return d.to_string() };
+    let body = &d[open_outer + 1..];
+    // first field must start right here: ` name: `
+    let Some(colon) = body.find(": ") else { return d.to_string() };
+    if !body[..colon].trim().chars().all(|c| c.is_alphanumeric() || c == '_') {
+        return d.to_string();
+    }
+    let val = &body[colon + 2..];
+    // value must open a bracket before the next top-level comma
+    let first_open = val.find(|c| c == '{' || c == '[' || c == '(');
+    let first_comma = val.find(',');
+    let Some(fo) = first_open else { return d.to_string() };
+    if let Some(fc) = first_comma {
+        if fc < fo {
+            return d.to_string();
+        }
+    }
+    let mut depth = 0i64;
+    let mut in_str = false;
+    let mut prev = '\0';
+    for (i, ch) in val.char_indices().skip_while(|(i, _)| *i < fo) {
+        if in_str {
+            if ch == '"' && prev != '\\' {
+                in_str = false;
+            }
+        } else {
+            match ch {
+                '"' => in_str = true,
+                '{' | '[' | '(' => depth += 1,
+                '}' | ']' | ')' => {
+                    depth -= 1;
+                    if depth == 0 {
+                        return val[i + 1..].to_string();
+                    }
+                }
+                _ => {}
+            }
+        }
+        prev = ch;
+    }
+    d.to_string()
+}
+
 pub fn hex(b: &[u8]) -> String {
     let mut s = String::with_capacity(b.len() * 2);
     for x in b {
